@@ -67,17 +67,37 @@ def _labels_near(gen_lines, a, b):
 
 
 def run_unit(unit, rlimit=30, vacuity=True):
-    """Returns a dict: status in {'verified','failed','undecided'}, failures[], functions[], timing, ..."""
+    """Returns a dict: status in {'verified','failed','undecided'}, failures[], functions[], timing, ...
+    Functions whose hints no longer fit the tree are degraded to assumed contracts (see extract.build_unit) and the unit is
+    re-run; `degraded` lists them - the caller makes every property that depends on one of them undecided."""
+    degrade = {}
+    unsupported_seen = []
+    for _round in range(4):
+        res = _run_unit_once(unit, rlimit, vacuity, degrade)
+        unsupported_seen += res.get('unsupported_paths', [])
+        more = res.pop('_degrade_candidates', None)
+        if not more:
+            break
+        new = {k: v for k, v in more.items() if k not in degrade}
+        if not new:
+            break
+        degrade.update(new)
+    if unsupported_seen:
+        res['unsupported_paths'] = sorted(set(unsupported_seen))
+    return res
+
+
+def _run_unit_once(unit, rlimit, vacuity, degrade):
     os.makedirs(os.path.join(BUILD, unit), exist_ok=True)
     upath = os.path.join(ROOT, 'vx', 'units', unit + '.vrs')
     res = {'unit': unit, 'status': 'undecided', 'failures': [], 'reason': None, 'functions': [], 'obligations': 0,
-           'discharged': 0, 'smt_ms': 0, 'wall_s': 0.0, 'vacuity': None}
+           'discharged': 0, 'smt_ms': 0, 'wall_s': 0.0, 'vacuity': None, 'degraded': []}
     t0 = time.time()
     try:
         with _EXTRACT_LOCK:
             extract._sources.clear()
-            text, info = extract.build_unit(upath, vacuity=False)
-            vtext, vinfo = (extract.build_unit(upath, vacuity=True) if vacuity else (None, None))
+            text, info = extract.build_unit(upath, vacuity=False, degrade=degrade)
+            vtext, vinfo = (extract.build_unit(upath, vacuity=True, degrade=degrade) if vacuity else (None, None))
     except (extract.ExtractError, extract.ScanError) as e:
         res['reason'] = 'extraction: %s' % e
         res['wall_s'] = time.time() - t0
@@ -90,11 +110,13 @@ def run_unit(unit, rlimit=30, vacuity=True):
     open(gen, 'w').write(text)
     open(gen + '.info.json', 'w').write(json.dumps(info, indent=1))
     res['generated'] = gen
+    res['degraded'] = info.get('degraded', [])
     res['rules_fired'] = info['rules_fired']
     res['rule_notes'] = info['rule_notes']
     res['assumption_scan'] = info['assumption_scan']
     res['contracted'] = [f['file'] + ' :: ' + f['path'] for f in info['functions']]
     res['items'] = [f['file'] + ' :: ' + f['path'] for f in info['items']]
+    res['fn_texts'] = {f['file'] + ' :: ' + f['path']: '\n'.join(text.split('\n')[f['gen_lines'][0] - 1:f['gen_lines'][1]]) for f in info['functions']}
     procs = {}
     from concurrent.futures import ThreadPoolExecutor
     with ThreadPoolExecutor(max_workers=2) as ex:
@@ -129,6 +151,18 @@ def run_unit(unit, rlimit=30, vacuity=True):
         res['reason'] = 'verus did not reach verification: ' + ' | '.join(msgs) if msgs else 'verus produced no result: ' + r['stderr'][-400:]
         res['unsupported_paths'] = re.findall(r'`([^`]+)` is not supported', ' '.join(d.get('message', '') for d in errors))
         res['stderr_tail'] = r['stderr'][-2000:]
+        # if every error lies inside the body of an extracted function, those functions can be degraded to assumed contracts
+        cand = {}
+        for d in errors:
+            spans = d.get('spans', [])
+            prim = [s_ for s_ in spans if s_.get('is_primary')] or spans
+            fn = _fn_of_line(info, prim[0]['line_start']) if prim else None
+            if fn is None:
+                cand = None
+                break
+            cand[fn['path']] = 'does not compile / not supported on this tree: ' + d.get('message', '')[:160]
+        if cand:
+            res['_degrade_candidates'] = cand
         return res
     fails = []
     undecided = []
